@@ -36,7 +36,16 @@ def anchors():
     return [su.IndexedSet]
 
 
-SORTKEYS = {'nat': None, 'neg': (lambda x: -x), 'mod3': (lambda x: x % 3)}
+# 'rank' reads a table that the caller changes between two sorts (priorities looked up in a dict, attributes of the
+# items): the same key function, other results
+RANK_EPOCH = [1]
+
+
+def _rank(x):
+    return (hash(x) * (RANK_EPOCH[0] * 2 + 1) + RANK_EPOCH[0]) % 7
+
+
+SORTKEYS = {'nat': None, 'neg': (lambda x: -x), 'mod3': (lambda x: x % 3), 'rank': _rank}
 
 
 def mk_operand(su, kind, items):
@@ -205,6 +214,8 @@ class Run(object):
                 kw['key'] = SORTKEYS[op[1]]
             if op[2]:
                 kw['reverse'] = True
+            if op[1] == 'rank':
+                RANK_EPOCH[0] += 1          # the table the key function reads has changed since the last sort
             expect(outcome(lambda: s.sort(**kw)), ('ok', None), 'result[sort]')
             L.sort(**kw)
         elif name == 'sort-fails':
@@ -439,6 +450,8 @@ class Check(object):
         if k == 'sort' and r.random() < 0.3:
             return ['sort-fails', x, r.random() < 0.3]        # comparisons raise part-way through the sort
         if k == 'sort':
+            if r.random() < 0.3:
+                return ['sort', 'rank', r.random() < 0.3]
             return ['sort', r.choice(list(SORTKEYS)), r.random() < 0.3]
         if k == 'update' and r.random() < 0.15:
             return ['update-fails', [r.choice(pool + [len(pool) + 1, len(pool) + 2]) for _ in range(r.choice([1, 2, 4]))],
@@ -636,6 +649,7 @@ class Check(object):
     def run(self, h, stats=None):
         run = Run(stats)
         run.refresh()
+        RANK_EPOCH[0] = 1
         long_ = h.get('kind') == 'long'
         rng = common.rng('C11-readout', len(h['ops']))
         maxints = 0
